@@ -61,7 +61,8 @@ class C11(C10):
             "containers.  Non-trivial run = at least one copy followed by a "
             "successful mutation of the original, the copy or a nested "
             "container of either; distinct = distinct event-log digests "
-            "among those.")
+            "among those."
+            " 15% of the copies are taken of containers that carry instance attributes (as every loaded module does); a copy that cannot be read is a violation; user subclasses and falsy values are in the pools.")
     ASSUMPTIONS = C10.ASSUMPTIONS + [
         "shallow mechanisms (m.copy(), copy.copy) are required to share "
         "nested containers with the original; deep mechanisms (deepcopy, "
